@@ -1,5 +1,5 @@
 (* C11/Proofs.v — layout of built messages and the round trip through the parser. *)
-From ZV Require Import Base.Bytes Base.Res Base.Sig C10.Model C11.Model C11.Spec C11.Body
+From ZV Require Import Base.Bytes Base.Res Base.Sig C10.Model C11.Model C11.Spec C11.Body C11.BodySpec
      C11.Lemmas C11.AtPos C11.SigProofs C11.NamesAscii C11.Invariants.
 From Coq Require Import Lia ZifyBool ZifyN ZifyNat.
 Open Scope N_scope.
@@ -710,4 +710,18 @@ Proof.
   - replace (off + 4 - 0) with (off + 4) by lia. lia.
   - lia.
   - apply at_pos_len in Hat. pose proof (tail_strs_len (h_endian h) l 0). unfold len in *. lia.
+Qed.
+
+(* ---------- two descriptors (possibly the same one twice): each index resolves to the file it was ---------- *)
+Theorem typed_hh h i j :
+  let bd := enc_hh (h_endian h) in
+  let g := SStruct [SFd; SFd] in
+  dec_typed (ShHH i j) (h_endian h) (spec_message h g bd 2) (body_offset_of h g bd 2) 2 = Ok (TFiles [i; j]).
+Proof.
+  intros bd g. pose proof (body_at h g bd 2) as Hat. pose proof (body_offset_aligned h g bd 2) as Hal.
+  set (off := body_offset_of h g bd 2) in *. set (b := spec_message h g bd 2) in *.
+  subst bd. unfold enc_hh in Hat. apply at_pos_app in Hat. destruct Hat as [H0 H1]. rewrite len_u32 in H1.
+  cbn [dec_typed shape_files]. rewrite parse_padding_aligned by lia. cbn [bind].
+  unfold de_fd_file. rewrite (de_u32_at' _ b off 0 H0) by (unfold two32; lia). cbn [bind nth_error N.to_nat].
+  rewrite (de_u32_at' _ b (off + 4) 1 H1) by (unfold two32; lia). reflexivity.
 Qed.
